@@ -159,7 +159,7 @@ func caseGetSTH(t *testing.T, sess *session, key *logKey, usePEM bool, v variant
 	var m mSTH
 	decoded := false
 	if att.received && att.ReadOK {
-		if json.NewDecoder(bytes.NewReader(att.body)).Decode(&m) == nil {
+		if json.Unmarshal(att.body, &m) == nil {
 			decoded = true
 			jsonCoq = fmt.Sprintf("(Some (Build_sth_rsp %s %s %s %s))", lib.Nn(m.TreeSize), lib.Nn(m.Timestamp), lib.Bytes(m.Root), lib.Bytes(m.Sig))
 		}
